@@ -62,9 +62,9 @@ func vArbClaim(target string) *vClaim {
 		c.from = []string{vSelf, vPeerA, vPeerB}[vPick(3)]
 	}
 	if c.kind == 0 {
-		c.addr = vBytes(4)
+		c.addr = vBytes(vAddrLen())
 		c.port = vU16()
-		c.meta = vBytes(vPick(2))
+		c.meta = vBytes(vMetaLen())
 		// version vector: absent, one byte short of complete, complete (thorough: also the 3-byte form)
 		c.vsn = vBytes([]int{0, 6, 5, 3}[vPick(3+vTier())])
 		if len(c.vsn) == 0 {
@@ -88,7 +88,7 @@ func H_C01_Step() {
 	f.vAddConcreteAlive(vPeerB, 3)
 	target := []string{vPeerA, vSelf}[vPick(2)]
 	if target == vPeerA {
-		f.vAddNode(vPeerA, vPick(2))
+		f.vAddNode(vPeerA, vMetaLen())
 	}
 	c := vArbClaim(target)
 	if target == vSelf {
